@@ -221,6 +221,93 @@ def matrix_shard(args):
 
 
 # ------------------------------------------------------------------------------------------------
+# leg 2c: function-specific grids (from reading the code: places where byte offsets, widths, sizes matter)
+
+def grid_sources():
+    out = []
+    mb = ["\u20ac", "\u00e9", "\ud83d\ude00", "x", "_", "-", " ", "g", "8", "G"]
+    for f, digit in (("parseHex", "a"), ("parseOctal", "7"), ("parseInt", "9")):
+        for off in list(range(0, 52)) + [63, 64, 65, 127, 128, 129, 300]:
+            for ch in mb:
+                out.append('std.%s("%s%s%s")' % (f, digit * off, ch, digit * 3))
+                out.append('std.%s("%s%s")' % (f, digit * off, ch))
+    for f in ("parseYaml", "parseJson"):
+        for off in (0, 1, 15, 16, 17, 31, 32, 33, 42, 43, 64):
+            for pre in ("0x", "0o", "-0x", "", "1e", "0."):
+                out.append('std.%s("%s%s\u20ac")' % (f, pre, "1" * off))
+    precs = [0, 1, 16, 17, 18, 100, 400, 767, 1074, 1099, 1100, 1101, 65534, 65535, 65536, 65537, 70000, 4294967295, 4294967296, 1e300]
+    for conv in "eEfFgGdioxXsc":
+        for p in precs:
+            out.append('std.format("%%.%s%s", [%s])' % ("%d" % p if p < 1e20 else "1" + "0" * 30, conv, "1.5" if conv not in "sc" else '"a"'))
+            out.append('std.format("%%%s%s", [%s])' % ("%d" % p if p < 1e20 else "1" + "0" * 30, conv, "1.5" if conv not in "sc" else '"a"') if p <= 70000 else "1")
+            out.append('std.format("%%.*%s", [%s, %s])' % (conv, "%d" % p if p < 1e20 else "1e300", "2.5" if conv not in "sc" else '"a"') if p <= 70000 or p >= 1e20 else "1")
+            out.append('std.format("%%*%s", [%s, %s])' % (conv, "%d" % p if p < 1e20 else "1e300", "2.5" if conv not in "sc" else '"a"') if p <= 70000 or p >= 1e20 else "1")
+    idx = ["0", "1", "-1", "3", "4", "-4", "-5", "2147483647", "2147483648", "-2147483649", "4294967296", "9007199254740992",
+           "9007199254740993", "1e300", "-1e300", "0.5", "-0.5", "null", '"1"']
+    for a in idx:
+        for b in idx[:14]:
+            out.append('"ab\u20ac"[%s:%s]' % (a if a != "null" else "", b if b != "null" else ""))
+            out.append("[1, 2, 3][%s:%s:%s]" % (a if a != "null" else "", b if b != "null" else "", "1"))
+            out.append("std.slice([1, 2, 3], %s, %s, %s)" % (a, b, "null"))
+            out.append('std.substr("a\u20acb", %s, %s)' % (a, b))
+        out.append("[1, 2, 3][%s]" % a)
+        out.append('"ab\u20ac"[%s]' % a)
+        out.append("[1, 2, 3][::%s]" % a)
+        out.append("std.char(%s)" % a)
+        out.append('std.splitLimit("a,b,c", ",", %s)' % a)
+        out.append('std.splitLimitR("a,b,c", ",", %s)' % a)
+        out.append("std.makeArray(%s, function(i) i)" % a if a not in ("2147483647", "2147483648", "4294967296", "9007199254740992", "9007199254740993", "1e300") else "1")
+        out.append('std.repeat("ab", %s)' % a if a not in ("2147483647", "2147483648", "4294967296", "9007199254740992", "9007199254740993", "1e300") else "1")
+        out.append("std.range(%s, 3)" % a if a not in ("-2147483649", "-1e300") else "1")
+        out.append("std.range(0, %s)" % a if a not in ("2147483647", "2147483648", "4294967296", "9007199254740992", "9007199254740993", "1e300") else "1")
+        out.append("1 << %s" % a)
+        out.append("1 >> %s" % a)
+        out.append("%s << 1" % a)
+        out.append("std.pow(2, %s)" % a)
+        out.append("std.log(%s)" % a)
+        out.append("std.sqrt(%s)" % a)
+        out.append("std.floor(%s) %% 7" % a)
+        out.append("std.member([1], %s)" % a)
+        out.append("std.count([1], %s)" % a)
+        out.append('std.manifestJsonEx([1], std.repeat(" ", std.abs(%s) %% 5))' % (a if a not in ("null", '"1"') else "1"))
+    # the known sourceannot finding and its neighbours: zero-width characters where an error is reported
+    for z in ["\u0339", "\u0301", "\u200b", "\u200d", "\ufeff", "\u202e", "\u00ad", "\u0000", "\u0008", "\u007f", "\u0085"]:
+        out.append(("RAW", z))
+    return [x for x in out if x != "1"]
+
+
+def grid_shard(args):
+    seed, sources = args
+    agg = Agg()
+    srv = Server()
+    try:
+        for src in sources:
+            if isinstance(src, tuple):
+                data = src[1].encode("ascii").decode("unicode_escape").encode("utf-8", "surrogatepass")
+                lines = run_lines(data, path="<zw>", session=(0, "-"))
+                agg.evaluations += 1
+                try:
+                    recs = srv.request(lines, timeout=30)
+                    o2 = Outcome(recs)
+                    if o2.cls == "panic":
+                        agg.violation(panic_sig(o2.rec, "session"), {"input": src[1], "panic": o2.rec.s("msg"), "loc": o2.rec.s("loc")},
+                                      {"script": lines})
+                except Crashed as e:
+                    if e.kind not in ("timeout", "oom"):
+                        agg.violation(crash_sig(e, "session", "grid"), {"input": src[1], "crash": e.detail[-400:]}, {"script": lines})
+                continue
+            lines = run_lines(src, multiline=0)
+            o = observe(agg, srv, lines, src, "grid", timeout=60)
+            if o is None:
+                continue
+            agg.count("grid:" + o.cls)
+            agg.nontrivial.add(common.h64(src))
+    finally:
+        srv.close()
+    return agg
+
+
+# ------------------------------------------------------------------------------------------------
 # leg 3: through the real CLI (exit status contract), incl. ext vars / TLAs and deep towers
 
 DEEP = {
@@ -393,6 +480,13 @@ def run(tier, seed):
         shards = [(seed * 7919 + i, "full", order[i::48], 0) for i in range(48)]
         shards += [(seed * 7907 + i, "random", order[i::16], 1500) for i in range(16)]
     for a in common.pmap(matrix_shard, shards):
+        total.merge(a)
+    grids = grid_sources()
+    rng.shuffle(grids)
+    if quick:
+        grids = [g for g in grids if isinstance(g, tuple)] + [g for g in grids if not isinstance(g, tuple)][:12000]
+    total.count("grid_sources", len(grids))
+    for a in common.pmap(grid_shard, [(seed, grids[i::32]) for i in range(32)]):
         total.merge(a)
     # leg 3
     n_cli = 1600 if quick else 40_000
